@@ -25,6 +25,17 @@ pub struct IoCtx {
     pub pending_wb: Option<(String, bool)>,
     /// builder P: translating a function that is not an I/O action (no `Result`) while `mode` is on
     pub in_pure: bool,
+    /// builder B: the caller's `&mut [u8]` buffers of the method being translated (passed by value, handed back next to
+    /// the `Ok` value: `IoM ε σ (T × List Int)`)
+    pub out_bufs: Vec<String>,
+    /// builder B: a write into one of `out_bufs` has been emitted; from then on the method must not throw (an `Err`
+    /// would drop the bytes delivered into the caller's buffer) — the translation FAILS LOUDLY if it might
+    pub out_written: bool,
+    /// builder B: the pending read fills a sub-slice `var[a..b]` of its buffer variable: the Lean terms of `a` and `b`
+    pub pending_slice: Option<(String, String)>,
+    /// builder B: Lean names of the translated methods that take a caller's buffer (they answer `(value, buffer)`); a
+    /// translated method that CALLS one of them is refused (the write-back into the caller's own buffer is not modelled)
+    pub out_fns: Vec<String>,
 }
 
 pub fn is_io_fn(sig: &Signature) -> bool {
@@ -80,8 +91,16 @@ pub fn ok_err(tr: &mut FnTr, name: &str, c: &ExprCall, env: &mut Env, st: &mut S
             (Ty::IntLit, None) => Ty::Int("i32"),
             _ => ta,
         };
+        // builder B: the caller's buffer is handed back next to the `Ok` value
+        let ob = tr.reg.io.borrow().out_bufs.clone();
+        if !ob.is_empty() && !tr.reg.io.borrow().in_pure {
+            return Ok((format!("(pure ({}, {}))", a, ob.iter().map(|v| lean_ident(v)).collect::<Vec<_>>().join(", ")), Ty::Res(Box::new(ta))));
+        }
         Ok((format!("(pure {})", paren(&a)), Ty::Res(Box::new(ta))))
     } else {
+        if tr.reg.io.borrow().out_written {
+            return Err("an `Err` after a write into the caller's `&mut [u8]` buffer is not supported (the bytes delivered would be dropped)".into());
+        }
         let (a, _) = tr.ex(&c.args[0], env, st, Some(Ty::Named("RadioError".into())))?;
         Ok((format!("(Rt.Phy.throw {})", paren(&a)), Ty::Res(Box::new(inner.unwrap_or(Ty::Unit)))))
     }
@@ -95,7 +114,32 @@ pub fn try_expr(tr: &mut FnTr, t: &ExprTry, env: &mut Env, st: &mut Stmts) -> Re
         other => return Err(format!("`?` on a non-Result ({:?})", other)),
     };
     let wb = tr.reg.io.borrow_mut().pending_wb.take();
+    let sl = tr.reg.io.borrow_mut().pending_slice.take();
+    // builder B: once bytes were delivered into the caller's buffer only the prelude's primitives (which do not throw in
+    // this denotation) may follow; a helper that might answer `Err` would silently drop them
+    if tr.reg.io.borrow().out_written && !term.starts_with("(Rt.Phy.") && !term.starts_with("Rt.Phy.") {
+        return Err("a call that may answer `Err` after a write into the caller's `&mut [u8]` buffer is not supported".into());
+    }
+    if let Some((var, _)) = &wb {
+        if tr.reg.io.borrow().out_bufs.contains(var) {
+            tr.reg.io.borrow_mut().out_written = true;
+        }
+    }
     match wb {
+        Some((var, status)) if sl.is_some() => {
+            // a read INTO `var[a..b]`: the slice was taken (checked) before the transaction, the bytes are written back
+            let (a, b) = sl.unwrap();
+            let tmp = tr.fresh();
+            let n = tr.fresh();
+            if status {
+                st.push((format!("({}, {})", n, tmp), Rhs::Act(term)));
+            } else {
+                st.push((tmp.clone(), Rhs::Act(term)));
+            }
+            let v = lean_ident(&var);
+            st.push((v.clone(), Rhs::Act(format!("Rt.Phy.ofOpt (Rt.copyFromSlice {} {} {} {})", v, paren(&a), paren(&b), tmp))));
+            if status { Ok((n, Ty::Int("u8"))) } else { Ok(("()".into(), Ty::Unit)) }
+        }
         Some((var, false)) => {
             st.push((lean_ident(&var), Rhs::Act(term)));
             Ok(("()".into(), Ty::Unit))
@@ -173,12 +217,35 @@ pub fn intf_call(tr: &mut FnTr, m: &ExprMethodCall, env: &mut Env, st: &mut Stmt
         ("read", 2) | ("read_with_status", 2) => {
             check_no_pending(tr)?;
             let (w, _) = tr.ex(args[0], env, st, Some(bytes.clone()))?;
+            let status = name == "read_with_status";
+            // builder B: a read INTO a sub-slice of a local / of the caller's buffer, `&mut buf[a..b]` / `&mut buf[..b]`
+            if let Expr::Index(ix) = peel(args[1]) {
+                let r = match &*ix.index {
+                    Expr::Range(r) if matches!(r.limits, RangeLimits::HalfOpen(_)) && r.end.is_some() => r,
+                    _ => return Err("read buffer: only `buf[a..b]` / `buf[..b]` sub-slices are supported".into()),
+                };
+                let var = buf_var(&ix.expr)?;
+                let (d, td) = tr.ex(&ix.expr, env, st, Some(bytes.clone()))?;
+                if td != bytes {
+                    return Err("read buffer is not a byte array".into());
+                }
+                let a = match &r.start {
+                    Some(e) => tr.ex(e, env, st, Some(Ty::Int("usize")))?.0,
+                    None => "0".to_string(),
+                };
+                let b = tr.ex(r.end.as_ref().unwrap(), env, st, Some(Ty::Int("usize")))?.0;
+                // the slice expression is evaluated (and may panic) before the transaction
+                let sl = tr.act(st, format!("Rt.slice {} {} {}", paren(&d), paren(&a), paren(&b)));
+                tr.reg.io.borrow_mut().pending_wb = Some((var, status));
+                tr.reg.io.borrow_mut().pending_slice = Some((a, b));
+                let f = if status { "Rt.Phy.readWithStatus" } else { "Rt.Phy.read" };
+                return Ok(Some((format!("({} {} {})", f, paren(&w), paren(&sl)), Ty::Res(Box::new(if status { Ty::Int("u8") } else { Ty::Unit })))));
+            }
             let var = buf_var(args[1])?;
             let (b, tb) = tr.ex(args[1], env, st, Some(bytes.clone()))?;
             if !matches!(tb, Ty::Arr(_)) {
                 return Err("read buffer is not a byte array".into());
             }
-            let status = name == "read_with_status";
             tr.reg.io.borrow_mut().pending_wb = Some((var, status));
             let f = if status { "Rt.Phy.readWithStatus" } else { "Rt.Phy.read" };
             Ok(Some((format!("({} {} {})", f, paren(&w), paren(&b)), Ty::Res(Box::new(if status { Ty::Int("u8") } else { Ty::Unit })))))
@@ -372,6 +439,7 @@ pub fn function_io(tr: &mut FnTr, sig: &Signature, body: &Block, lean_name: &str
     let mut env: Env = HashMap::new();
     let mut params = vec![];
     let mut readonly = vec![];
+    let mut out_bufs: Vec<String> = vec![];
     for a in &sig.inputs {
         match a {
             FnArg::Receiver(_) => {
@@ -395,6 +463,8 @@ pub fn function_io(tr: &mut FnTr, sig: &Signature, body: &Block, lean_name: &str
                     if rf.mutability.is_some() {
                         match &t {
                             Ty::Named(_) => readonly.push(name.clone()),
+                            // builder B: the caller's receive buffer `&mut [u8]`
+                            Ty::Arr(el) if **el == Ty::Int("u8") && out_bufs.is_empty() => out_bufs.push(name.clone()),
                             _ => return Err(format!("`&mut` parameter {} of a non-struct type is not supported in I/O mode", name)),
                         }
                     }
@@ -420,9 +490,26 @@ pub fn function_io(tr: &mut FnTr, sig: &Signature, body: &Block, lean_name: &str
     // statement mode of builder L (continuation of early exits, `if let` chains)
     tr.muts = vec![String::new()];
     tr.reg.io.borrow_mut().pending_wb = None;
-    let seq = tr.block_tail(&body.stmts, &mut env)?;
+    tr.reg.io.borrow_mut().pending_slice = None;
+    let saved_bufs = std::mem::replace(&mut tr.reg.io.borrow_mut().out_bufs, out_bufs.clone());
+    let saved_written = std::mem::replace(&mut tr.reg.io.borrow_mut().out_written, false);
+    let saved_out = (saved_bufs, saved_written);
+    let seq = tr.block_tail(&body.stmts, &mut env);
+    {
+        let mut io = tr.reg.io.borrow_mut();
+        io.out_bufs = saved_out.0;
+        io.out_written = saved_out.1;
+    }
+    let seq = seq?;
     check_no_pending(tr)?;
     tr.muts = vec![];
+    // builder B: a method with a caller's buffer answers `(value, buffer)`; nothing translated may call it as a helper
+    let (inner, ret) = if out_bufs.is_empty() {
+        (inner, ret)
+    } else {
+        let t = Ty::Tuple(vec![inner, Ty::Arr(Box::new(Ty::Int("u8")))]);
+        (t.clone(), Ty::Res(Box::new(t)))
+    };
     let ps = params
         .iter()
         .map(|(n, t)| format!("({} : {})", if n == "_" { "_unused".to_string() } else { lean_ident(n) }, t.lean()))
@@ -432,6 +519,19 @@ pub fn function_io(tr: &mut FnTr, sig: &Signature, body: &Block, lean_name: &str
     out.push_str(&format!("def {} {{σ : Type}} {} : Rt.Phy.IoM RadioError σ {} := ", lean_name, ps, inner.lean()));
     render_io(&seq, 1, &mut out);
     out.push('\n');
+    // builder B: LOUD, not silent: the bytes a helper delivers into a (slice of a) caller's buffer would have to be written
+    // back into this method's own variable; that is not modelled
+    {
+        let fns = tr.reg.io.borrow().out_fns.clone();
+        for f in fns.iter().filter(|f| f.as_str() != lean_name) {
+            if out.contains(&format!("({} ", f)) || out.contains(&format!(" {} ", f)) {
+                return Err(format!("call of {} (a method that fills a caller's `&mut [u8]` buffer) from a translated method is not supported", f));
+            }
+        }
+    }
+    if !out_bufs.is_empty() {
+        tr.reg.io.borrow_mut().out_fns.push(lean_name.to_string());
+    }
     Ok((out, FnSig { lean: lean_name.to_string(), params, ret, fallible: false, muts: vec![] }))
 }
 
